@@ -124,6 +124,13 @@ static int lst_driver_main(void)
                 for (size_t k = 0; k < L; k++) { unsigned v; sscanf(replay + 2 * k, "%2x", &v); seq.data[0][k] = (uint8_t)v; }
                 seq.len[0] = (uint16_t)L; strcpy(seq.tmpl, "replay");
             }
+            if (vp_cfg_str("CORPUS", "")[0] && i < vp_cfg_u64("CORPUS_N", 64)) {      /* seed corpus for the fuzz stage */
+                for (int d = 0; d < seq.n; d++) {
+                    char pth[512]; snprintf(pth, sizeof pth, "%s/%s_%d_%llu_%d", vp_cfg_str("CORPUS", ""), lst_name(), mode, (unsigned long long)idx, d);
+                    FILE* cf = fopen(pth, "wb"); if (cf) { fputc(mode, cf); fwrite(seq.data[d], 1, seq.len[d], cf); fclose(cf); }
+                }
+                continue;
+            }
             uint64_t th = 1469598103934665603ull; for (const char* q = seq.tmpl; *q; q++) th = (th ^ (uint8_t)*q) * 1099511628211ull;
             if (!thash[th % 256]) { thash[th % 256] = 1; templates_seen++; }
             int ep[2]; if (pipe(ep) < 0) return 2;
@@ -201,3 +208,18 @@ static int make_pair(int fds[2])
     int sz = 1 << 20; setsockopt(fds[0], SOL_SOCKET, SO_SNDBUF, &sz, sizeof sz); setsockopt(fds[1], SOL_SOCKET, SO_SNDBUF, &sz, sizeof sz);
     return 0;
 }
+
+#ifdef LST_FUZZ
+/* libFuzzer stage (thorough tier of C18): first input byte selects the listener mode, the rest is one datagram.
+ * State (sequence numbers, queues) persists across inputs, so the fuzzer explores datagram histories. */
+static void lst_fuzz_one(int mode, const uint8_t* d, size_t n);
+int LLVMFuzzerTestOneInput(const uint8_t* data, size_t size)
+{
+    static int init;
+    if (!init) { init = 1; int dn = open("/dev/null", O_WRONLY); if (dn >= 0) { dup2(dn, 1); close(dn); } signal(SIGPIPE, SIG_IGN); }
+    if (size < 1) return 0;
+    size_t n = size - 1; if (n > 1500) n = 1500;
+    lst_fuzz_one(data[0] % lst_nmodes(), data + 1, n);
+    return 0;
+}
+#endif
